@@ -14,6 +14,10 @@ claimed = {
    text="Proof (per-function, unbounded in amounts and number of debts): every stablestake keeper function that writes Params.TotalValue, a Debt row or moves the module's deposit-denom cash (Borrow, Repay, UpdateInterestStacked, GetInterest) preserves TotalValue - cash - Σdebts exactly on every committing path; Σ over all borrowers is a ghost aggregate maintained by the table-write semantics.",
    note=COMMON_NOTE + "Induction over histories is closed only over the listed functions (see evidence.functions_under_contract); callers in other modules reach the footprint only through them.",
    ref="§8 C06"),
+ "C12": dict(
+   text="Proof, with the per-account ledger collections bounded to 2 entries x 2 lock-ups in the type-level obligations (labelled bounded in the evidence) and unbounded at keeper level: AddCommittedTokens/DeductFromCommitted/GetCommittedAmountForDenom against the ledger spec functions (exact committed delta, lock-up recorded, lock respected unless liquidation, no overdraw); CommitLiquidTokens/UncommitTokens keep Params.TotalCommitted - Σ committed, the account delta, and module custody - Σ committed - Σ claimed exactly, for every denom except Eden/EdenB (whose hooks enter the SDK). One genuine defect is recorded as a known finding (UncommitTokens adds to TotalCommitted).",
+   note=COMMON_NOTE + "CommitmentChanged hook frame is checked against the estaking implementation; other commitment hooks are read as arbitrary state change. Eden/EdenB paths are not claimed.",
+   ref="§8 C12"),
  "C14": dict(
    text="Proof: VestedSoFar's result equals the linear spec function Total*min(elapsed,N)/N for all inputs (strongest postcondition), never panics for N>0, is within [0,Total] and equals Total once the schedule has elapsed.",
    note=COMMON_NOTE,
